@@ -114,12 +114,16 @@ def plan(tier, seed):
     for i in range(256):
         for v in U.with_free_inputs(net_from_index(2, i)):
             u2f.append(("fi", 2, i, sorted(v.inputs)))
-    units = [("hist", [s], d) for s in nets] + [("hist", ch, 0) for ch in U.chunks(f3, 4)] + [("hist", ch, 1 if tier != "quick" else 0) for ch in U.chunks(u2f, 3)]
+    UNSORTED = {2: ["z", "b"], 3: ["z", "b", "a"], 4: ["z", "b", "y", "a"], 5: ["z", "b", "y", "a", "m"]}
+    api = [("api", ("k", k), UNSORTED[n.n]) for k, n in K.items() if n.n in UNSORTED and len(n.sd[0]) >= 2 and n.n <= 4]
+    api += [("api", ("idx", 2, i), UNSORTED[2]) for i in U2 if c04.sd_size(("idx", 2, i)) >= 3]
+    units = [("hist", [s], 1 if len(U.resolve(s).sd[0]) <= 4 else 0) for s in api]
+    units += [("hist", [s], d) for s in nets] + [("hist", ch, 0) for ch in U.chunks(f3, 4)] + [("hist", ch, 1 if tier != "quick" else 0) for ch in U.chunks(u2f, 3)]
     big = [("k", k) for k, n in K.items() if n.n > 4] if tier == "quick" else []
     units += [("hist", [s], 0) for s in big]
     units.sort(key=lambda u: -u[2])
     return {
-        "units": units, "universes": {"K + U2 (history states)": len(nets), "F3c/MULTI3/MAA3 shards (fresh state)": len(f3), "K(n>4) fresh": len(big), "U2f (free-input variants, incl. inputs that regulate nothing)": len(u2f)},
+        "units": units, "universes": {"K + U2 (history states)": len(nets), "F3c/MULTI3/MAA3 shards (fresh state)": len(f3), "K(n>4) fresh": len(big), "API-declared networks with unsorted variable order": len(api), "U2f (free-input variants, incl. inputs that regulate nothing)": len(u2f)},
         "bounds": {"insertion points": f"every diagram state reachable by <= {d} call(s) of the full alphabet (K, U2) or the fresh diagram",
                    "inserted": "pickle round trip | reclaim_node_data",
                    "continuation": "each operation of a representative alphabet (queries on every node, succ/skip per node, bfs, dfs, "
